@@ -275,8 +275,32 @@ def rand_sorted(rng, n, unique, cs):
     return xs[:n]
 
 
-def random_cases(tier, rng):
+def tail_cases():
+    """column lengths a little above a multiple of a LARGER chunk size (32, 64: one to three rows in the last chunk), for the
+    legacy streamed drivers whose staging buffers have exactly `chunksize` slots — a driver that lets a chunk grow past
+    `chunksize` (e.g. a short tail folded into the previous chunk) overruns them. Seed independent; always part of the run."""
     out = []
+    k = 5000
+    for cs in (32, 64):
+        for extra in (1, 2, 3):
+            for mult in (1, 2):
+                n = cs * mult + extra
+                left = list(range(0, 2 * n, 2))                  # unique, ascending
+                right = [x for x in range(0, 2 * n, 2) if x % 3]   # every third key unmatched
+                k += 1
+                inv = [-1, INV64][k % 2]
+                m = [inv if j is None else j for _, j in left_join(left, right)]
+                out.append({"op": "streamed_old", "left": left, "right": right, "inv": inv, "cs": cs, "kdtype": "int64", "_n": k,
+                            "_boundary": True})
+                out.append({"op": "map_stream_old", "src": num_payload(len(right), k)["data"], "dtype": PDT[k % 3], "map": m,
+                            "inv": inv, "cs": cs, "_n": k, "_boundary": True})
+                out.append(mk_om("oml", "streamed", left, right, True, True, cs, k, _boundary=True))
+                out.append(mk_om("omr", "streamed", right, left, True, True, cs, k + 100, _boundary=True))
+    return out
+
+
+def random_cases(tier, rng):
+    out = tail_cases()
     n = 150 if tier == "quick" else 2500
     for t in range(n):
         cs = rng.choice([1, 2, 3, 4, 5, 6, 7, 16, 33])
